@@ -85,7 +85,9 @@ def run(chk):
             r_on = core.call_real(lambda: float(st.pc_conditional(df2, "g", ["s", "t"])))
             r_on1 = core.call_real(lambda: float(st.pc_conditional(df2, "g", "st")))
             for nm, x, y in (("two-grouping-columns", r_two, r_one), ("list-on", r_on, r_on1)):
-                same = x == y or (x[0] == y[0] == "ok" and math.isnan(x[1]) and math.isnan(y[1]))
+                # (the two calls visit the groups in different orders - tuple keys vs joined strings - so the float mean may differ in
+                #  its last bit: compared to 1e-12, not for bit equality)
+                same = x == y or (x[0] == y[0] == "ok" and ((math.isnan(x[1]) and math.isnan(y[1])) or abs(x[1] - y[1]) <= 1e-12 * max(1.0, abs(y[1]))))
                 if not same:
                     chk.violation(f"C13|pc_conditional|{nm}", f"pc_conditional with {nm} = {x} differs from the same statistic on the combined key = {y}", meta)
             if len(sorted_keys) > 1:
@@ -97,11 +99,12 @@ def run(chk):
         ops.append({"op": "group_rows", "tbl": tbl})
         checks.append(("groupby", meta, core.call_real(lambda: [[skey(k), list(d["s"])] for k, d in sorted(list(df.groupby("g")))]), nt))
         # pcDelta_grouped / cross, edge vectors and bins = 0: compared with direct pcDelta of the group rows (composition)
-        for bins in ([0, 1, 2, 3, 4], 0):
+        for bins in ([0, 1, 2, 3, 4], 0, np.arange(0, 5)):          # edge vectors as a list and as a NumPy array; the bins = 0 form
             real_g = core.call_real(lambda: ds.pcDelta_grouped(df, "g", "s", bins=bins))
             real_c = core.call_real(lambda: ds.pcDelta_grouped_cross(df, "g", "s", condensed=True, bins=bins)) if len(sorted_keys) > 1 else None
-            real_sq = core.call_real(lambda: ds.pcDelta_grouped_cross(df, "g", "s", bins=0)) if (bins == 0 and len(sorted_keys) > 1) else None
-            checks.append(("pcDelta_grouped*", {**meta, "bins": bins}, (real_g, real_c, real_sq, df, sorted_keys), nt))
+            is0 = isinstance(bins, int) and bins == 0
+            real_sq = core.call_real(lambda: ds.pcDelta_grouped_cross(df, "g", "s", bins=0)) if (is0 and len(sorted_keys) > 1) else None
+            checks.append(("pcDelta_grouped*", {**meta, "bins": 0 if is0 else [int(b) for b in bins]}, (real_g, real_c, real_sq, df, sorted_keys), nt))
             ops.append({"op": "group_rows", "tbl": tbl})
         # entropies
         base = rng.choice([2.0, math.e, 10.0, None, 0.5, 0.1, 3])      # a base below 1 is a base too (the entropy changes sign)
@@ -157,6 +160,8 @@ def run(chk):
                     want = core.call_real(lambda: np.atleast_1d(ds.pcDelta(rows, bins=bins)).astype(float).tolist())
                     got = fr.iloc[i].astype(float).tolist() if okg and fr.shape[1] > 0 else []
                     okg = okg and want[0] == "ok" and len(got) == len(want[1]) and all(close(x, y) for x, y in zip(got, want[1]))
+                if okg and [str(k) for k in fr.index] != [str(k) for k in skeys]:
+                    chk.violation("C13|pcDelta_grouped|row-labels", f"pcDelta_grouped rows are labelled {list(fr.index)}, the groups are {skeys}", meta)
                 if not okg:
                     chk.violation(f"C13|pcDelta_grouped|bins={'0' if bins == 0 else 'edges'}|differs",
                                   f"pcDelta_grouped(bins={bins}) does not give for each group the pcDelta of that group alone "
@@ -185,6 +190,9 @@ def run(chk):
                         for j in range(len(gl)):
                             want = float(ds.pcDelta(gl[i], gl[j], bins=0)) if i != j else float(ds.pcDelta(gl[i], bins=0))
                             oks = oks and close(float(fr.iloc[i, j]), want)
+                    if oks and ([str(k) for k in fr.index] != [str(k) for k in skeys] or [str(k) for k in fr.columns] != [str(k) for k in skeys]):
+                        chk.violation("C13|pcDelta_grouped_cross|square|labels", f"the square form is labelled {list(fr.index)} x {list(fr.columns)}, "
+                                      f"the groups are {skeys}: entry [g, h] cannot be found by its groups", meta)
                     if not oks:
                         chk.violation("C13|pcDelta_grouped_cross|square|diagonal", "square pcDelta_grouped_cross(bins=0) does not hold the "
                                       "within-group value on its diagonal / cross values elsewhere", {**meta, "real": fr.values.tolist()})
@@ -205,12 +213,34 @@ def run(chk):
                 sd = st.stdpc(df["s"])
                 tests.append(("stdrenyi2", lambda: en.stdrenyi2_entropy(df, "s", base=base), sd / (p * lb)))
                 if pj > 0:
-                    tests.append(("stdrenyi2-joint", lambda: en.stdrenyi2_entropy(df, ["s", "t"], base=base), st.stdpc_joint(df, ["s", "t"]) / (pj * lb)))
+                    # (oracle: stdpc of the explicitly joined labels - not stdpc_joint itself)
+                    joined = [f"{a_}_{b_}" for a_, b_ in zip(df["s"], df["t"])]
+                    sdj = st.stdpc(joined)
+                    tests.append(("stdrenyi2-joint", lambda: en.stdrenyi2_entropy(df, ["s", "t"], base=base), sdj / (pj * lb)))
+                    tests.append(("stdpc_joint", lambda: st.stdpc_joint(df, ["s", "t"]), sdj))
             for name, fn, want in tests:
                 r = core.call_real(lambda: float(fn()))
                 if r[0] != "ok" or not close(r[1], float(want), 1e-12):
                     chk.violation(f"C13|{name}|" + (f"raises-{r[1]}" if r[0] == "error" else "differs"),
                                   f"{name}(base={base}) = {r} but -log_base(pc) / stdpc/(pc ln base) = {want}", {**meta})
+            # the SAME table object with a feature column overwritten in place (a permutation test does exactly this): the joint
+            # statistics are those of the table as it is now
+            if len(df) >= 3:
+                dfe = df.copy()
+                core.call_real(lambda: en.renyi2_entropy(dfe, ["s", "t"], base=base))
+                core.call_real(lambda: st.pc_joint(dfe, ["s", "t"]))
+                vals = list(dfe["t"])
+                dfe["t"] = vals[1:] + vals[:1] if len(set(vals)) > 1 else ["x", "y"] * (len(vals) // 2) + ["x"] * (len(vals) % 2)
+                fresh = dfe.copy(deep=True)                       # a new object with the same content: the reference
+                for name, fn in (("pc_joint", lambda d: st.pc_joint(d, ["s", "t"])), ("renyi2-joint", lambda d: en.renyi2_entropy(d, ["s", "t"], base=base)),
+                                 ("stdrenyi2-joint", lambda d: en.stdrenyi2_entropy(d, ["s", "t"], base=base) if len(d) >= 4 else 0.0),
+                                 ("renyi2-conditional-joint", lambda d: en.renyi2_entropy(d, ["s", "t"], by="g", base=base))):
+                    r_same = core.call_real(lambda: float(fn(dfe)))
+                    r_new = core.call_real(lambda: float(fn(fresh)))
+                    same = r_same == r_new or (r_same[0] == r_new[0] == "ok" and (math.isnan(r_same[1]) and math.isnan(r_new[1])))
+                    if not same:
+                        chk.violation(f"C13|{name}|stale-after-in-place-edit", f"{name} on a table whose feature column was overwritten in place = {r_same}, "
+                                      f"on a fresh copy with the same content = {r_new}", {**meta, "t_after_edit": list(dfe["t"])})
     for bad in (0, -2.0):
         r = core.call_real(lambda: en.renyi2_entropy(pd.DataFrame({"s": ["a", "a"]}), "s", base=bad))
         if r != ("error", "ValueError"):
